@@ -87,7 +87,7 @@ def check_memo_keys(ctx: CheckContext, p: Program, r: Resolver, funcs: List[Func
         nodes = body_nodes(f)
         # form 1: equality of arguments with stored inputs guarding an early return of a stored value
         for nd in nodes:
-            if isinstance(nd, ast.If) and not nd.orelse and _returns_stored(nd.body):
+            if isinstance(nd, ast.If) and not nd.orelse and nd.body and isinstance(nd.body[-1], ast.Return) and (_returns_stored(nd.body) or len(nd.body) == 1):
                 el = _key_elements_from_test(f, nd.test)
                 if el and any(isinstance(x, ast.Name) and x.id in params for e in el for x in ast.walk(e)):
                     sites.append((nd, el, "early return of the stored result"))
